@@ -636,3 +636,114 @@ func specDecode(b []byte) (s specMsg, ok bool) {
 	}
 	return s, true
 }
+
+// smfNilSubsets calls every meta accessor of smf.Message with every subset of its out parameters nil ("Only arguments
+// that are not nil are parsed and filled"): same answer, and every non-nil parameter receives the value the all-non-nil
+// call gives. "" = consistent. A panic is the caller's business (recover there).
+func smfNilSubsets(m smf.Message) string {
+	p8 := func(nilp bool, v *uint8) *uint8 {
+		if nilp {
+			return nil
+		}
+		return v
+	}
+	pb := func(nilp bool, v *bool) *bool {
+		if nilp {
+			return nil
+		}
+		return v
+	}
+	// 4 x uint8
+	{
+		var f [4]uint8
+		ok := m.GetMetaTimeSig(&f[0], &f[1], &f[2], &f[3])
+		for mask := 1; mask < 16; mask++ {
+			g := [4]uint8{0xEE, 0xEE, 0xEE, 0xEE}
+			ok2 := m.GetMetaTimeSig(p8(mask&1 != 0, &g[0]), p8(mask&2 != 0, &g[1]), p8(mask&4 != 0, &g[2]), p8(mask&8 != 0, &g[3]))
+			if ok && !ok2 {
+				return fmt.Sprintf("GetMetaTimeSig with nil mask %04b answers %v, with all out parameters %v", mask, ok2, ok)
+			}
+			for i := 0; ok && i < 4; i++ {
+				if mask&(1<<i) == 0 && g[i] != f[i] {
+					return fmt.Sprintf("GetMetaTimeSig with nil mask %04b: out parameter %d = %d, all-non-nil call gives %d", mask, i, g[i], f[i])
+				}
+			}
+		}
+	}
+	{
+		var f [5]uint8
+		ok := m.GetMetaSMPTEOffsetMsg(&f[0], &f[1], &f[2], &f[3], &f[4])
+		for mask := 1; mask < 32; mask++ {
+			g := [5]uint8{0xEE, 0xEE, 0xEE, 0xEE, 0xEE}
+			ok2 := m.GetMetaSMPTEOffsetMsg(p8(mask&1 != 0, &g[0]), p8(mask&2 != 0, &g[1]), p8(mask&4 != 0, &g[2]), p8(mask&8 != 0, &g[3]), p8(mask&16 != 0, &g[4]))
+			if ok && !ok2 {
+				return fmt.Sprintf("GetMetaSMPTEOffsetMsg with nil mask %05b answers %v, with all out parameters %v", mask, ok2, ok)
+			}
+			for i := 0; ok && i < 5; i++ {
+				if mask&(1<<i) == 0 && g[i] != f[i] {
+					return fmt.Sprintf("GetMetaSMPTEOffsetMsg with nil mask %05b: out parameter %d = %d, all-non-nil call gives %d", mask, i, g[i], f[i])
+				}
+			}
+		}
+	}
+	{
+		var k, n uint8
+		var maj, flat bool
+		ok := m.GetMetaKeySig(&k, &n, &maj, &flat)
+		for mask := 1; mask < 16; mask++ {
+			var k2, n2 uint8 = 0xEE, 0xEE
+			maj2, flat2 := !maj, !flat
+			ok2 := m.GetMetaKeySig(p8(mask&1 != 0, &k2), p8(mask&2 != 0, &n2), pb(mask&4 != 0, &maj2), pb(mask&8 != 0, &flat2))
+			if ok && !ok2 {
+				return fmt.Sprintf("GetMetaKeySig with nil mask %04b answers %v, with all out parameters %v", mask, ok2, ok)
+			}
+			if ok && ((mask&1 == 0 && k2 != k) || (mask&2 == 0 && n2 != n) || (mask&4 == 0 && maj2 != maj) || (mask&8 == 0 && flat2 != flat)) {
+				return fmt.Sprintf("GetMetaKeySig with nil mask %04b fills %d %d %v %v, all-non-nil call gives %d %d %v %v", mask, k2, n2, maj2, flat2, k, n, maj, flat)
+			}
+		}
+	}
+	{
+		var a, b uint8
+		ok := m.GetMetaMeter(&a, &b)
+		for mask := 1; mask < 4; mask++ {
+			var a2, b2 uint8 = 0xEE, 0xEE
+			ok2 := m.GetMetaMeter(p8(mask&1 != 0, &a2), p8(mask&2 != 0, &b2))
+			if (ok && !ok2) || (ok && ((mask&1 == 0 && a2 != a) || (mask&2 == 0 && b2 != b))) {
+				return fmt.Sprintf("GetMetaMeter with nil mask %02b answers %v %d %d, all-non-nil call %v %d %d", mask, ok2, a2, b2, ok, a, b)
+			}
+		}
+	}
+	// one out parameter: nil must answer the same
+	var u8 uint8
+	var u16 uint16
+	var bs []byte
+	var key smf.Key
+	var bpm float64
+	var str string
+	type one struct {
+		name     string
+		full, nl bool
+	}
+	for _, x := range []one{
+		{"GetMetaChannel", m.GetMetaChannel(&u8), m.GetMetaChannel(nil)},
+		{"GetMetaPort", m.GetMetaPort(&u8), m.GetMetaPort(nil)},
+		{"GetMetaSeqNumber", m.GetMetaSeqNumber(&u16), m.GetMetaSeqNumber(nil)},
+		{"GetMetaSeqData", m.GetMetaSeqData(&bs), m.GetMetaSeqData(nil)},
+		{"GetMetaKey", m.GetMetaKey(&key), m.GetMetaKey(nil)},
+		{"GetMetaTempo", m.GetMetaTempo(&bpm), m.GetMetaTempo(nil)},
+		{"GetMetaLyric", m.GetMetaLyric(&str), m.GetMetaLyric(nil)},
+		{"GetMetaCopyright", m.GetMetaCopyright(&str), m.GetMetaCopyright(nil)},
+		{"GetMetaCuepoint", m.GetMetaCuepoint(&str), m.GetMetaCuepoint(nil)},
+		{"GetMetaDevice", m.GetMetaDevice(&str), m.GetMetaDevice(nil)},
+		{"GetMetaInstrument", m.GetMetaInstrument(&str), m.GetMetaInstrument(nil)},
+		{"GetMetaMarker", m.GetMetaMarker(&str), m.GetMetaMarker(nil)},
+		{"GetMetaProgramName", m.GetMetaProgramName(&str), m.GetMetaProgramName(nil)},
+		{"GetMetaText", m.GetMetaText(&str), m.GetMetaText(nil)},
+		{"GetMetaTrackName", m.GetMetaTrackName(&str), m.GetMetaTrackName(nil)},
+	} {
+		if x.full && !x.nl {
+			return fmt.Sprintf("%s(nil) answers %v, with an out parameter %v", x.name, x.nl, x.full)
+		}
+	}
+	return ""
+}
